@@ -199,6 +199,9 @@ type OracleFail struct {
 	Kind string `json:"kind"`   // orphan kindnames usage gateway-services topology vip-unique vip-advertised ...
 	Sub  string `json:"sub"`    // structured sub-class
 	What string `json:"what"`   // human detail
+	// Cause: the known class of histories the failure belongs to ("" = none: the failure is in a
+	// history outside every excluded class); computed from the real dumps, not from the model
+	Cause string `json:"cause"`
 }
 
 type History struct {
@@ -211,6 +214,7 @@ type History struct {
 	Oracle  []OracleFail `json:"oracle"`
 	Shrunk  []Cmd        `json:"shrunk,omitempty"`
 	Stats   map[string]int `json:"stats,omitempty"`
+	Flags   map[string]bool `json:"flags,omitempty"`
 }
 
 // ---------------------------------------------------------------- universe
@@ -321,7 +325,8 @@ func configEntry(c *Conf) structs.ConfigEntry {
 		}
 		return e
 	case structs.ServiceDefaults:
-		e := &structs.ServiceConfigEntry{Kind: c.Kind, Name: c.Name}
+		// every service speaks http (as proxy-defaults says), so that ingress listeners validate
+		e := &structs.ServiceConfigEntry{Kind: c.Kind, Name: c.Name, Protocol: "http"}
 		if c.Dest {
 			e.Destination = &structs.DestinationConfig{Addresses: []string{"example.com"}, Port: 443}
 		}
@@ -901,8 +906,23 @@ func (im *impl) oracle(step int, d *Dump) []OracleFail {
 	for _, k := range d.KindNames {
 		gotKN[k[0]+"|"+k[1]] = true
 	}
-	if sub, what := setDiff("kind-service-names", recomputeKindNames(d), gotKN); sub != "" {
-		fail("kindnames", sub, what)
+	{
+		split := func(m map[string]bool, dest bool) map[string]bool {
+			o := map[string]bool{}
+			for k := range m {
+				if strings.HasPrefix(k, "destination|") == dest {
+					o[k] = true
+				}
+			}
+			return o
+		}
+		wantKN := recomputeKindNames(d)
+		if sub, what := setDiff("kind-service-names", split(wantKN, false), split(gotKN, false)); sub != "" {
+			fail("kindnames", sub, what)
+		}
+		if sub, what := setDiff("kind-service-names", split(wantKN, true), split(gotKN, true)); sub != "" {
+			fail("kindnames", "destination-"+sub, what)
+		}
 	}
 	// the query API agrees with the table
 	for _, kind := range []structs.ServiceKind{structs.ServiceKindTypical, structs.ServiceKindConnectProxy, structs.ServiceKindConnectEnabled,
@@ -928,6 +948,7 @@ func (im *impl) oracle(step int, d *Dump) []OracleFail {
 	}
 
 	// ---- usage
+	usageFailsBefore := len(out)
 	wantU := recomputeUsage(d)
 	gotU := map[string]int{}
 	for _, u := range d.Usage {
@@ -944,8 +965,11 @@ func (im *impl) oracle(step int, d *Dump) []OracleFail {
 			fail("usage", id, fmt.Sprintf("%s: recomputed %d stored %d", id, wantU[id], gotU[id]))
 		}
 	}
-	if _, su, err := st.ServiceUsage(nil, false); err != nil {
-		fail("usage", "api-error", err.Error())
+	tableUsageOK := len(out) == usageFailsBefore
+	if _, su, err := st.ServiceUsage(nil, false); err != nil || !tableUsageOK {
+		if err != nil {
+			fail("usage", "api-error", err.Error())
+		}
 	} else {
 		if su.ServiceInstances != wantU["services"] || su.Services != wantU["service-names"] || su.Nodes != wantU["nodes"] ||
 			su.BillableServiceInstances != wantU["billable-services"] {
@@ -990,8 +1014,12 @@ func (im *impl) oracle(step int, d *Dump) []OracleFail {
 				tab[k] = true
 			}
 		}
-		if sub, what := setDiff("GatewayServices("+gw+")", tab, api); sub != "" {
-			fail("gateway-services", "api-"+sub, what)
+		// the query filters wildcard-derived ingress rows whose protocol does not match: only rows
+		// the table does not have are wrong
+		for k := range api {
+			if !tab[k] {
+				fail("gateway-services", "api-extra", "GatewayServices("+gw+") returns "+k+" which the table lacks")
+			}
 		}
 	}
 
@@ -1012,11 +1040,13 @@ func (im *impl) oracle(step int, d *Dump) []OracleFail {
 			fail("topology", "api-error", err.Error())
 			continue
 		}
-		api := map[string]bool{}
+		apiReg, apiAny := map[string]bool{}, map[string]bool{}
 		for k, src := range topo.UpstreamSources {
-			if src == structs.TopologySourceRegistration || src == structs.TopologySourceRoutingConfig {
-				api[strings.TrimPrefix(k, "default/")] = true
+			n := strings.TrimPrefix(k, "default/")
+			if src == structs.TopologySourceRegistration {
+				apiReg[n] = true
 			}
+			apiAny[n] = true
 		}
 		tab := map[string]bool{}
 		for k := range gotT {
@@ -1025,8 +1055,15 @@ func (im *impl) oracle(step int, d *Dump) []OracleFail {
 				tab[p[0]] = true
 			}
 		}
-		if sub, what := setDiff("ServiceTopology("+name+").upstreams", tab, api); sub != "" {
-			fail("topology", "api-"+sub, what)
+		for n := range tab {
+			if !apiAny[n] {
+				fail("topology", "api-missing", fmt.Sprintf("ServiceTopology(%s) does not report upstream %s of the table", name, n))
+			}
+		}
+		for n := range apiReg {
+			if !tab[n] {
+				fail("topology", "api-extra", fmt.Sprintf("ServiceTopology(%s) reports upstream %s (from registrations) that the table lacks", name, n))
+			}
 		}
 	}
 
@@ -1151,6 +1188,179 @@ func unionKeys(a, b map[string]int) []string {
 	}
 	sort.Strings(out)
 	return out
+}
+
+
+// ---------------------------------------------------------------- history classes (for structured signatures)
+
+// tracker follows, on the real dumps, the few facts about a history that delimit the classes of
+// histories on which the unchanged code is known to deviate (known_findings.json).
+type tracker struct {
+	flags map[string]bool
+	stale map[string]uint64 // instances (node/id -> modify index) whose advertised virtual IP lost its assignment while they stayed
+}
+
+func newTracker() *tracker { return &tracker{flags: map[string]bool{}, stale: map[string]uint64{}} }
+
+func (t *tracker) observe(before, after *Dump) {
+	bs := map[string]*SvcRow{}
+	for i := range before.Services {
+		r := &before.Services[i]
+		bs[r.Node+"/"+r.ID] = r
+	}
+	kindOf := map[string]string{}
+	pairs := map[string]int{}
+	as := map[string]*SvcRow{}
+	for i := range after.Services {
+		r := &after.Services[i]
+		as[r.Node+"/"+r.ID] = r
+		if o := bs[r.Node+"/"+r.ID]; o != nil {
+			if o.Name != r.Name || o.Kind != r.Kind || o.Native != r.Native || o.Dest != r.Dest {
+				t.flags["instance-redefined"] = true
+				if o.Name == "consul" || r.Name == "consul" {
+					t.flags["consul-renamed"] = true
+				}
+			}
+			if strings.Join(o.Ups, ",") != strings.Join(r.Ups, ",") {
+				t.flags["upstreams-changed"] = true
+			}
+		}
+		if k, ok := kindOf[r.Name]; ok && k != r.Kind {
+			t.flags["name-shared-across-kinds"] = true
+		}
+		kindOf[r.Name] = r.Kind
+		if r.Kind == "connect-proxy" || r.Native {
+			for _, u := range uniq(sortedCopy(r.Ups)) {
+				pairs[u+"|"+r.Dest]++
+				if pairs[u+"|"+r.Dest] > 1 {
+					t.flags["pair-declared-twice"] = true
+				}
+			}
+		}
+	}
+	for _, c := range after.Confs {
+		if c.Kind == structs.ServiceDefaults && !c.Dest && destConf(before, c.Name) {
+			t.flags["destination-dropped-by-update"] = true
+		}
+		for _, x := range c.Services {
+			if x == "*" {
+				t.flags["wildcard-gateway"] = true
+			}
+		}
+		for _, l := range c.Listeners {
+			for _, x := range l.Services {
+				if x == "*" {
+					t.flags["wildcard-gateway"] = true
+				}
+			}
+		}
+	}
+	// a virtual IP assignment disappeared although a sidecar proxy of that service stays and advertises it
+	av := map[string]bool{}
+	for _, v := range after.VIPs {
+		av[v.Service] = true
+	}
+	for _, v := range before.VIPs {
+		if av[v.Service] {
+			continue
+		}
+		for k, r := range as {
+			if r.Kind == "connect-proxy" && r.Dest == v.Service && r.VIP >= 0 {
+				t.stale[k] = r.M
+				t.flags["proxy-outlived-assignment"] = true
+			}
+		}
+	}
+	for k, m := range t.stale {
+		if r := as[k]; r == nil || r.M != m {
+			delete(t.stale, k)
+		}
+	}
+}
+
+// observeCmd: redefinitions inside one command (a transaction may define an instance twice)
+func (t *tracker) observeCmd(c *Cmd, before *Dump) {
+	type def struct {
+		name, kind, dest string
+		native          bool
+	}
+	cur := map[string]def{}
+	for i := range before.Services {
+		r := &before.Services[i]
+		cur[r.Node+"/"+r.ID] = def{r.Name, r.Kind, r.Dest, r.Native}
+	}
+	write := func(node string, sp *SvcSpec) {
+		d := def{sp.Name, sp.Kind, "", sp.Native}
+		if sp.Kind == "connect-proxy" {
+			d.dest = sp.Dest
+		}
+		if o, ok := cur[node+"/"+sp.ID]; ok && o != d {
+			t.flags["instance-redefined"] = true
+			if o.name == "consul" || d.name == "consul" {
+				t.flags["consul-renamed"] = true
+			}
+		}
+		cur[node+"/"+sp.ID] = d
+		for _, o := range cur {
+			if o.name == d.name && o.kind != d.kind {
+				t.flags["name-shared-across-kinds"] = true
+			}
+		}
+	}
+	switch c.Kind {
+	case "register":
+		if c.Svc != nil {
+			write(c.Node, c.Svc)
+		}
+	case "txn":
+		for i := range c.Ops {
+			o := &c.Ops[i]
+			if o.Kind == "service" && (o.Verb == "set" || o.Verb == "cas") {
+				write(o.Node, o.Svc)
+			}
+		}
+	}
+}
+
+func sortedCopy(xs []string) []string {
+	out := append([]string{}, xs...)
+	sort.Strings(out)
+	return out
+}
+
+// cause: the excluded class a failure belongs to, or ""
+func (t *tracker) cause(f *OracleFail) string {
+	switch f.Kind {
+	case "kindnames":
+		if f.Sub == "destination-extra" && t.flags["destination-dropped-by-update"] {
+			return "destination-dropped-by-update"
+		}
+		if f.Sub == "extra" && (t.flags["instance-redefined"] || t.flags["name-shared-across-kinds"]) {
+			return "instance-redefined-or-name-shared-across-kinds"
+		}
+	case "usage":
+		if f.Sub == "billable-services" && t.flags["consul-renamed"] {
+			return "instance-renamed-to-or-from-consul"
+		}
+	case "vip-advertised":
+		// the failing instance is named at the start of the detail
+		inst := strings.SplitN(f.What, " ", 2)[0]
+		if _, ok := t.stale[inst]; ok && (f.Sub == "service-has-no-assignment" || f.Sub == "differs-from-assignment") {
+			return "proxy-outlived-assignment"
+		}
+	case "topology":
+		if strings.HasPrefix(f.Sub, "api-") {
+			return ""
+		}
+		if t.flags["pair-declared-twice"] || t.flags["instance-redefined"] || t.flags["wildcard-gateway"] {
+			return "pair-shared-or-instance-redefined-or-wildcard-gateway"
+		}
+	case "gateway-services":
+		if !strings.HasPrefix(f.Sub, "api-") && t.flags["wildcard-gateway"] {
+			return "wildcard-gateway"
+		}
+	}
+	return ""
 }
 
 // ---------------------------------------------------------------- generator
@@ -1537,6 +1747,8 @@ func runScript(id int, mix string, script []Cmd, g *gen, n int) History {
 		g.im = im
 	}
 	h := History{ID: id, Mix: mix, Cmds: []Cmd{}, Results: []Res{}, Oracle: []OracleFail{}, Stats: map[string]int{}}
+	tr := newTracker()
+	before := im.dump()
 	for i := 0; i < n; i++ {
 		var c Cmd
 		if i < len(script) {
@@ -1550,7 +1762,13 @@ func runScript(id int, mix string, script []Cmd, g *gen, n int) History {
 		res := im.apply(&c)
 		after := im.dump()
 		h.Cmds = append(h.Cmds, c)
-		h.Oracle = append(h.Oracle, im.oracle(i, &after)...)
+		tr.observeCmd(&c, &before)
+		tr.observe(&before, &after)
+		for _, f := range im.oracle(i, &after) {
+			f.Cause = tr.cause(&f)
+			h.Oracle = append(h.Oracle, f)
+		}
+		before = after
 		h.Stats[c.Kind]++
 		if res.Kind == "err" || res.Kind == "txn-err" {
 			h.Stats["err:"+strings.SplitN(res.Err, ":", 2)[0]]++
@@ -1564,10 +1782,63 @@ func runScript(id int, mix string, script []Cmd, g *gen, n int) History {
 		h.Results = append(h.Results, res)
 		h.Final = after
 	}
+	h.Flags = tr.flags
 	return h
 }
 
-func sigOf(f OracleFail) string { return f.Kind + "/" + f.Sub }
+// corpus: the minimised failing histories (the witnesses of coq/Catalog/Refuted.v), run first on every run
+func corpus() map[string][]Cmd {
+	reg := func(idx uint64, node string, sp *SvcSpec) Cmd {
+		return Cmd{Kind: "register", Idx: idx, Node: node, Addr: 1, Svc: sp}
+	}
+	proxy := func(id, name, dest string, ups ...string) *SvcSpec {
+		if ups == nil {
+			ups = []string{}
+		}
+		return &SvcSpec{ID: id, Name: name, Kind: "connect-proxy", Dest: dest, Port: 80, Ups: ups, Weights: true}
+	}
+	plain := func(id, name string) *SvcSpec {
+		return &SvcSpec{ID: id, Name: name, Port: 80, Ups: []string{}, Weights: true}
+	}
+	native := func(id, name string) *SvcSpec {
+		return &SvcSpec{ID: id, Name: name, Native: true, Port: 80, Ups: []string{}, Weights: true}
+	}
+	return map[string][]Cmd{
+		"vip-proxy-outlives-assignment": {
+			{Kind: "sysmeta", Idx: 2, Key: structs.SystemMetadataVirtualIPsEnabled, Value: "true"},
+			reg(3, "n1", proxy("s1", "web-proxy", "web")),
+			{Kind: "conf_set", Idx: 4, Conf: &Conf{Kind: structs.ServiceDefaults, Name: "web"}},
+			{Kind: "conf_delete", Idx: 5, Conf: &Conf{Kind: structs.ServiceDefaults, Name: "web"}},
+			reg(6, "n1", native("s2", "db")),
+		},
+		"kindnames-name-shared-across-kinds": {
+			reg(3, "n2", proxy("s1", "web", "db")),
+			reg(4, "n3", plain("s1", "web")),
+			{Kind: "deregister", Idx: 5, Node: "n2"},
+		},
+		"kindnames-instance-renamed": {
+			reg(3, "n1", plain("s1", "db")),
+			reg(4, "n1", plain("s1", "web")),
+		},
+		"topology-pair-declared-twice": {
+			reg(3, "n1", proxy("s1", "web-proxy", "web", "db")),
+			reg(4, "n2", proxy("s1", "web-proxy", "web", "db")),
+			{Kind: "deregister", Idx: 5, Node: "n2", SvcID: "s1"},
+		},
+		"gateway-listed-service-overwritten-by-wildcard": {
+			{Kind: "conf_set", Idx: 3, Conf: &Conf{Kind: structs.TerminatingGateway, Name: "tgw", Services: []string{"web", "*"}}},
+			reg(4, "n1", plain("s1", "web")),
+			{Kind: "deregister", Idx: 5, Node: "n1", SvcID: "s1"},
+		},
+		"usage-instance-renamed-to-consul": {
+			reg(3, "n1", plain("s1", "web")),
+			reg(4, "n1", proxy("s2", "p", "web")),
+			reg(5, "n1", proxy("s2", "consul", "web")),
+		},
+	}
+}
+
+func sigOf(f OracleFail) string { return f.Kind + "/" + f.Sub + "/" + f.Cause }
 
 // shrink: delta debugging over the command list, keeping the first failure's class
 func shrink(cmds []Cmd, sig string) []Cmd {
@@ -1663,6 +1934,21 @@ func main() {
 		n = 900
 		if *tier == "thorough" {
 			n = 12000
+		}
+	}
+	{
+		cp := corpus()
+		var names []string
+		for k := range cp {
+			names = append(names, k)
+		}
+		sort.Strings(names)
+		for i, k := range names {
+			h := runScript(-1-i, "corpus:"+k, cp[k], nil, len(cp[k]))
+			h.Model = true
+			j, _ := json.Marshal(&h)
+			w.Write(j)
+			w.WriteByte('\n')
 		}
 	}
 	rng := rand.New(rand.NewSource(*seed))
